@@ -418,3 +418,36 @@ pub fn deep_nested_words() -> Vec<Vec<String>> {
     }
     out
 }
+
+/// Sets of test cases that share prefixes and differ in the *length of a run* of one character — the shapes on which the
+/// trie of `-r` widens edges ({m,n}), keeps several edges with the same characters at one state, and the minimisation has to
+/// tell states apart by the counts their edges carry: prefix ∈ {"", x, y, xy} · c^k (k = 1..5) · suffix ∈ {"", p, q, pq, c-run}
+pub fn run_sets(rng: &mut Rng, n: usize) -> Vec<Vec<String>> {
+    let prefixes = ["", "x", "y", "xy", "z"];
+    let suffixes = ["", "p", "q", "pq", "ppp", "qqqq", "pb", "pbb"];
+    let mut out: Vec<Vec<String>> = vec![];
+    // the systematic part: two prefixes, each with a set of run lengths (subsets of 1..=4), no suffix
+    for ka in 1u32..16 {
+        for kb in 1u32..16 {
+            let mut t = vec![];
+            for k in 0..4 {
+                if ka & (1 << k) != 0 { t.push(format!("x{}", "c".repeat(k + 1))); }
+                if kb & (1 << k) != 0 { t.push(format!("y{}", "c".repeat(k + 1))); }
+            }
+            out.push(t);
+        }
+    }
+    for _ in 0..n {
+        let size = 3 + rng.below(6);
+        let c = ["c", "ab", "."][rng.below(3)];
+        let np = 1 + rng.below(3);
+        let ns = 1 + rng.below(3);
+        let mut t: Vec<String> = (0..size).map(|_| {
+            format!("{}{}{}", prefixes[rng.below(np + 1)], c.repeat(1 + rng.below(5)), suffixes[rng.below(ns + 1) * (1 + rng.below(2)) % suffixes.len()])
+        }).collect();
+        t.sort();
+        t.dedup();
+        out.push(t);
+    }
+    out
+}
